@@ -6,7 +6,8 @@ FAMILIES_WARM = ["same", "shared_var", "setof", "shared_cond", "exists", "indepe
 RULES = ["rule_refine", "rule_alt", "rule_next"]
 
 
-def expected_alone(h, n):
+def expected_alone(h, alone):
+    """The observation sequence in which every evaluation returns what a fresh identical query returns when it runs alone."""
     cnt, out = {}, []
     for s in h:
         if s["a"] in ("start", "restart"):
@@ -16,21 +17,26 @@ def expected_alone(h, n):
             out.append("-")
         else:
             k = cnt[s["i"]]
-            out.append(str(k + 1) if k < n else "stop")
+            seq = alone[str(s["i"])]
+            out.append(seq[k] if k < len(seq) else "stop")
             cnt[s["i"]] = k + 1
     return out
 
 
 def sequential(h):
-    """No two evaluations are live at the same time."""
-    live = set()
+    """No two evaluations are RUNNING at the same time: an evaluation runs from its first next() to its end or abandonment
+    (obtaining an iterator with evaluate() does not start it)."""
+    running = set()
     for s in h:
-        if s["a"] in ("start", "restart"):
-            if live - {s["i"]}:
-                return False
-            live.add(s["i"])
-        elif s["a"] == "abandon" or (s["a"] == "next" and s["o"] in ("stop", "RuntimeError")):
-            live.discard(s["i"])
+        if s["a"] == "next":
+            if s["o"] in ("stop", "RuntimeError"):
+                running.discard(s["i"])
+            else:
+                if running - {s["i"]}:
+                    return False
+                running.add(s["i"])
+        elif s["a"] in ("abandon", "restart"):
+            running.discard(s["i"])
     return True
 
 
@@ -64,6 +70,8 @@ def main():
         for k, fam in enumerate(fams):
             for h in hs[k % step::step]:
                 cases.append({"family": fam, "n": n, "warm": w, "h": h})
+    for k, h in enumerate(warm[::step]):
+        cases.append({"family": "bare_var", "n": 4, "warm": True, "h": h})
     seq = [h for h in cold if sequential(h)]
     for k, fam in enumerate(RULES):
         for h in seq[k % step::step]:
@@ -71,7 +79,7 @@ def main():
     results = replay("itersched", cases)
     ctx.replayed = len(cases)
     for c, r in zip(cases, results):
-        alone = expected_alone(c["h"], c["n"])
+        alone = expected_alone(c["h"], r["alone"])
         asis = [s["o"] for s in c["h"]]
         obs = r["obs"]
         key = [c["family"], c["warm"], [(s["i"], s["a"]) for s in c["h"]]]
